@@ -69,6 +69,9 @@ func runSchedule(e *ev.Env, c *ev.Case, sc *scen, ch sched.Chooser) *schedRun {
 	for i := range sc.Seeds {
 		q := sc.Seeds[i]
 		g.do(&q)
+		if q.Hung {
+			return &schedRun{out: &sched.Outcome{}, g: g}
+		}
 		if q.Panic != "" {
 			e.Eval(1)
 			g.reportPanic(&q, g.panicClass(&q), map[string]any{"during": "seeding"})
@@ -170,7 +173,10 @@ func runSchedule(e *ev.Env, c *ev.Case, sc *scen, ch sched.Chooser) *schedRun {
 	}
 	if out.Deadlock {
 		if !panicked {
-			g.viol("deadlock|without-panic", "concurrent requests never finished: "+strings.Join(out.Blocked, ","), det)
+			g.mu.Lock()
+			g.dead = true
+			g.mu.Unlock()
+			g.viol("deadlock|request-never-completes|"+g.hangClass("concurrent-requests"), "concurrent requests never finished (no panic): "+strings.Join(out.Blocked, ","), det)
 		}
 		return res
 	}
@@ -362,6 +368,9 @@ func genScen(r *gen.Rand) *scen {
 	nw := r.Range(2, 4)
 	for i := 0; i < nw; i++ {
 		w := rq{Method: "GET", Key: gen.Pick(r, keys), Status: 200, Size: []int{0, 100, 300, 500, 700}[r.Intn(5)]}
+		if r.Chance(1, 12) {
+			w.Size = cf.MaxBytes + 1 // does not fit at all
+		}
 		if r.Chance(1, 8) {
 			w.Status = gen.Pick(r, badStatuses)
 		}
